@@ -1,6 +1,7 @@
 package gen
 
 import (
+	"encoding/base64"
 	"bytes"
 	"encoding/json"
 	"fmt"
@@ -22,6 +23,8 @@ type Data struct {
 	Elems []*Data
 	Keys  []string
 	Vals  []*Data
+	// CUELit, if set, is the CUE spelling of the leaf (a bytes literal whose JSON form is the base64 string S)
+	CUELit string
 }
 
 // Pool is the adversarial string pool: every YAML 1.1/1.2 implicit spelling, document markers,
@@ -196,7 +199,11 @@ func (d *Data) cue(sb *strings.Builder, ind string) {
 		}
 		sb.WriteString(lit)
 	case "string":
-		sb.WriteString(CUEString(d.S))
+		if d.CUELit != "" {
+			sb.WriteString(d.CUELit)
+		} else {
+			sb.WriteString(CUEString(d.S))
+		}
 	case "list":
 		sb.WriteString("[")
 		for i, e := range d.Elems {
@@ -502,4 +509,24 @@ func FromValue(v cue.Value) (*Data, error) {
 		return d, nil
 	}
 	return nil, fmt.Errorf("not concrete data: %v", v.Kind())
+}
+
+// BytesData is a bytes leaf: a CUE bytes literal whose JSON form is the base64 string.
+func BytesData(b []byte) *Data {
+	var sb strings.Builder
+	sb.WriteByte('\'')
+	for _, c := range b {
+		switch {
+		case c == '\n':
+			sb.WriteString("\\n")
+		case c == '\'' || c == '\\':
+			fmt.Fprintf(&sb, "\\x%02x", c)
+		case c >= 0x20 && c < 0x7f:
+			sb.WriteByte(c)
+		default:
+			fmt.Fprintf(&sb, "\\x%02x", c)
+		}
+	}
+	sb.WriteByte('\'')
+	return &Data{Kind: "string", S: base64.StdEncoding.EncodeToString(b), CUELit: sb.String()}
 }
